@@ -60,6 +60,7 @@ class Server:
         self.calls = []          # (tick, idle)
         self.decisions = {}      # tick -> {"asg": [...], "sus": [...]}
         self.known = set()
+        self.suspended_seen = {}
         self.complete_reported = {}
         self.last_new = None
         self.last_payload_tick = None
@@ -129,6 +130,18 @@ class Server:
                     for k, v in wantc.items():
                         if cj[k] != jsonlib.loads(jsonlib.dumps(v)):
                             raise Violation("C19.container_figures", {"container": c.container_id, "field": k, "sent": cj[k], "true": v}, t)
+        # a container that finished suspending stays suspended (nothing resumes a container; its work is assigned anew):
+        # once listed, it is part of the state of every later call
+        for pj in body["pools"]:
+            now = [c["container_id"] for c in pj["suspended_containers"]]
+            was = self.suspended_seen.setdefault(pj["pool_id"], [])
+            gone = [c for c in was if c not in set(now)]
+            if gone:
+                raise Violation("C19.suspended_forgotten", {"pool": pj["pool_id"], "missing": gone[:5], "listed_before": len(was),
+                                                            "listed_now": len(now)}, t)
+            self.suspended_seen[pj["pool_id"]] = now
+            if len(now) > 500:
+                self.probes["suspended_over_500"] = 1
         # pipelines.  Identity is (pipeline_id, arrival_tick): a recurring job may use the id of a finished pipeline again
         key = lambda pj_: (pj_["pipeline_id"], pj_.get("arrival_tick"))
         newids = [p["pipeline_id"] for p in body["new_pipelines"]]
@@ -250,7 +263,7 @@ class Server:
                         continue
                     n = 1 if not self.cfg["multi"] else r.randint(1, len(ready))
                     ops = ready[:n]
-                    if self.cfg["multi"] and k.get("chains") and r.random() < 0.6:
+                    if self.cfg["multi"] and k.get("chains") and r.random() < k.get("chain_p", 0.6):
                         # a dependency-closed list: children ride behind their parents in one container, as the in-process
                         # schedulers do (the DAG is not in the payload: known to this scheduler out of band)
                         real = next((q for q in R.pipes if q.pipeline_id == p["pipeline_id"]
@@ -263,7 +276,7 @@ class Server:
                                 if o is None or oj["id"] in chosen or oj["id"] in taken or not oj["is_assignable_state"]:
                                     continue
                                 if all(str(q.id) in chosen or real.runtime_status().operator_states[q].value == "completed"
-                                       for q in o.parents) and r.random() < 0.8:
+                                       for q in o.parents) and r.random() < max(0.8, k.get("chain_p", 0)):
                                     chosen.append(oj["id"])
                             ops = chosen
                             self.probe("chain_container", int(len(ops) > 1))
@@ -274,10 +287,10 @@ class Server:
                         ops = ops + [o["id"] for o in p2["operators"] if o["is_assignable_state"] and o["parents_complete"]
                                      and o["id"] not in taken][:2]
                         self.probe("mixed_pipeline_container")
-                    cpu = r.randint(1, max(1, int(cpu_left)))
+                    cpu = 1 if k.get("one_cpu") else r.randint(1, max(1, int(cpu_left)))
                     if k.get("fractional_cpu") and r.random() < 0.4:
                         cpu = r.choice([c for c in (0.5, 1.25, 1.5, 2.75) if c <= cpu_left] or [cpu])
-                    ram = ram_left * r.choice([0.1, 0.25, 0.5, 1.0])
+                    ram = ram_left * r.choice([0.1, 0.25, 0.5, 1.0]) if not k.get("one_cpu") else min(ram_left, pool["max_ram_gb"] / 256)
                     if ram <= 0:
                         break
                     taken.update(ops)
@@ -429,6 +442,29 @@ def run_rest(scn):
     return out
 
 
+def gen_storm(r, tier):
+    """count reach over REST: several hundred two-operator chains in one pool, every container suspended at its operator
+    boundary by the external scheduler, the rest assigned again"""
+    from fractions import Fraction as F
+    from .exdrv import fstr
+    tps = r.choice([1, 2, 10])
+    unit = F(20, tps)
+    n = r.randint(560, 800) if tier == "quick" else r.randint(600, 1500)
+    per_tick = r.choice([10, 20])
+    nticks = n // per_tick + 40
+    cfg = {"algo": "naive", "tps": tps, "duration": float(F(nticks, tps)), "pools": 1, "cpus": 128, "ram": int(4000 * unit) if (4000 * unit).denominator == 1 else float(4000 * unit),
+           "multi": True, "over": False, "rest_poll_interval": float(F(1, tps)), "rest_scheduler_addr": "sim.invalid:1"}
+    small = fstr(unit / 4)
+    pipes = []
+    for k in range(n):
+        ops = [{"par": [], "segs": [[fstr(F(1, tps)), "const", small, "0"]]},
+               {"par": [0], "segs": [[fstr(F(1, tps)), "const", small, "0"]]}]
+        pipes.append({"prio": r.choice(["QUERY", "INTERACTIVE", "BATCH_PIPELINE"]), "at": k // per_tick, "id": "p%d" % (k + 1), "ops": ops})
+    return {"kind": "rest", "cfg": cfg, "pipes": pipes, "policy": "random", "policy_seed": r.randint(0, 10 ** 9), "latency": "fast",
+            "policy_knobs": {"p_asg": 1.0, "p_sus": 1.0, "per_pool": 64, "retry": True, "fractional_cpu": False, "mixed": False,
+                             "own_priorities": False, "chains": True, "one_cpu": True, "chain_p": 1.0}}
+
+
 def gen_scn(r, tier):
     from . import sysgen
     scn = sysgen.gen(r, "naive", "C19", tier)
@@ -441,7 +477,7 @@ def gen_scn(r, tier):
     scn["pipes"] = [p for p in scn["pipes"] if p["at"] < max(nt, 1)][:15]
     cfg["over"] = r.random() < 0.3
     tps = cfg["tps"]
-    cfg["rest_poll_interval"] = r.choice([0.5 / tps, 1 / tps, 3 / tps, 10 / tps, 0.1, 1.0, 2.5])
+    cfg["rest_poll_interval"] = r.choice([0.5 / tps, 1 / tps, 3 / tps, 10 / tps, 0.1, 1.0, 2.5, 1000.0, 0])
     cfg["rest_scheduler_addr"] = "sim.invalid:1"
     scn["kind"] = "rest"
     if r.random() < 0.3:
